@@ -100,6 +100,7 @@ type Expected struct {
 	Iok     bool       `json:"iok"`
 	Iposts  []Posting  `json:"iposts"`
 	Kbr     bool       `json:"kbr"`
+	Zsplit  bool       `json:"zsplit"`
 }
 
 type Case struct {
